@@ -72,6 +72,9 @@ func propsFor(rel string, u *Unit) []string {
 			set["C02"] = true
 		case f == "interpreter.go" && u.Recv == "EVMInterpreter" && u.FuncName == "Run":
 			set["C02"] = true
+		case f == "interpreter.go" && u.FuncName == "NewEVMInterpreter":
+			// selects the fork's instruction (and thereby gas) table and applies the extra EIPs
+			set["C02"] = true
 		case f == "evm.go" && u.Recv == "EVM" && c02Frames[u.FuncName]:
 			set["C02"] = true
 		case f == "contracts.go" && (u.FuncName == "RunPrecompiledContract" || u.FuncName == "RequiredGas"):
